@@ -167,6 +167,10 @@ def check(res, tier, seed):
                     fc["frames_since_last_good_probe"] = since_probe[-4:]
                 nfuzz += 1
                 fdist[("stream " if fc["stream"] else "message ") + fc["outcome"].split(":")[0]] += 1
+                if fc["outcome"] == "stalled":
+                    monitor_hits += 1
+                    res.violation("peerfuzz-stalled", "after the well-formed frames %s from a raw peer the link neither answers a further valid request nor ends: it has silently stopped processing" % [f[:80] for f in fc["frames"]],
+                                  dict(kind="peerfuzz", seed=fr["seed"], case=fc))
                 if fc["outcome"] == "hang":
                     monitor_hits += 1
                     res.violation("peerfuzz-hang", "after frames %s from a raw peer the link's Link call does not return although its context is cancelled and the transport closed" % fc["frames"],
